@@ -15,6 +15,9 @@ use shred::{FetchMut, SystemData};
 
 use crate::storage::WriteStorage;
 
+#[cfg(feature = "specs_verif")]
+pub use self::entity::VerifSlot;
+
 mod comp;
 mod entity;
 mod lazy;
